@@ -44,6 +44,9 @@
 
 use std::collections::BTreeMap;
 use std::str::FromStr;
+use base64::Engine as _;
+use serde::Deserialize as _;
+use serde::de::IntoDeserializer as _;
 use bcder::Mode;
 use bcder::encode::Values;
 use bytes::Bytes;
@@ -581,9 +584,18 @@ struct Cms {
     /// the same EE certificate with the windows 2000..2001 (expired) and 2100..2101 (not yet valid)
     ee_alt: [Vec<u8>; 2],
     ca: ResourceCert,
+    /// a second CA (other key) under the same TA, for "not issued by this CA"
+    ca_other: ResourceCert,
+    /// which base64 flavour `impl Serialize for Manifest` writes (found out by serialising a valid manifest)
+    b64: usize,
 }
 
 const EE_KEY: usize = 2;
+
+fn b64_encode(flavour: usize, data: &[u8]) -> String {
+    use base64::engine::general_purpose::{STANDARD, STANDARD_NO_PAD, URL_SAFE, URL_SAFE_NO_PAD};
+    match flavour { 0 => STANDARD.encode(data), 1 => STANDARD_NO_PAD.encode(data), 2 => URL_SAFE.encode(data), _ => URL_SAFE_NO_PAD.encode(data) }
+}
 
 impl Cms {
     fn new() -> Cms {
@@ -603,7 +615,32 @@ impl Cms {
             pki::build_cert_der(&signer, &spec)
         };
         let (ee_der, ee_alt) = (ee(2000, 2100), [ee(2000, 2001), ee(2100, 2101)]);
-        Cms { signer, ee_der, ee_alt, ca }
+        let mut other_spec = Spec::issued(Kind::Ca, 3, 0, ta.subject_key_identifier(), Res::all(), Overclaim::Refuse);
+        other_spec.validity = window(2000, 2100);
+        let ca_other = pki::build_cert(&signer, &other_spec).validate_ca_at(&ta, true, pki::time(pki::T0)).expect("second CA validates");
+        let mut cms = Cms { signer, ee_der, ee_alt, ca, ca_other, b64: usize::MAX };
+        // the serialised form: serialise a valid manifest and see which base64 flavour reproduces it
+        let ec = der::manifest_content(None, &[1], THIS.der(), NEXT.der(), der::OID_SHA256, &[]);
+        let obj = cms.wrap(&ec, &cms.sign(&ec));
+        if let Ok(m) = Manifest::decode(obj.as_slice(), true) {
+            if let Ok(Ok(json)) = guard(|| serde_json::to_string(&m)) {
+                cms.b64 = (0..4).find(|f| json == format!("\"{}\"", b64_encode(*f, &obj))).unwrap_or(usize::MAX);
+            }
+        }
+        cms
+    }
+    /// What `Serialize for Manifest` (serde_json) would write for these octets.
+    fn serde_form(&self, obj: &[u8]) -> String { format!("\"{}\"", b64_encode(self.b64, obj)) }
+    /// Signed attributes with a message digest that is not the digest of the content, correctly signed.
+    fn sign_wrong_digest(&self, econtent: &[u8]) -> Signed {
+        let mut d = sha256(econtent); d[0] ^= 1;
+        let attrs = vec![
+            der::attr_content_type(der::OID_CT_MANIFEST),
+            der::attr_signing_time(der::utctime(civ(2023, 11, 14, 22, 13, 20))),
+            der::attr_message_digest(&d),
+        ];
+        let signature = self.signer.sign_raw(EE_KEY, &der::signed_attrs_tbs(&attrs));
+        Signed { attrs, signature }
     }
     /// Signed attributes and signature for `econtent` (they do not depend on
     /// how the eContent OCTET STRING is encoded).
@@ -703,7 +740,9 @@ fn run_object(t: &mut Tally, fx: &Fixed, cms: &Cms, c: &Case, econtent: &[u8], o
         let wit = || witness(&format!("Manifest::decode/{}{}{enc}", if strict { "strict" } else { "relaxed" }, if enc.is_empty() { "" } else { " " }), c, econtent);
         // a constructed eContent is not DER: the strict decoder may refuse it whatever it holds
         let model_ok = c.model_accepts(true) && (enc.is_empty() || !strict);
-        match guard(|| Manifest::decode(obj.clone(), strict)) {
+        let decoded = guard(|| Manifest::decode(obj.clone(), strict));
+        if strict { serde_route(t, fx, cms, c, econtent, obj, enc, matches!(decoded, Ok(Ok(_))), alt) }
+        match decoded {
             Err(p) => { t.outcome("panic"); t.fail("C14.decode.no_panic", wit, format!("Manifest::decode panicked: {p}")) }
             Ok(Err(_)) => {
                 t.outcome(if model_ok { "rejected (model: nothing wrong)" } else { "rejected (model: something wrong)" });
@@ -723,6 +762,59 @@ fn run_object(t: &mut Tally, fx: &Fixed, cms: &Cms, c: &Case, econtent: &[u8], o
                     Err(p) => { t.stat("cms_validation_panicked"); t.sample(|| format!("validation panicked: {p}")) }
                 }
             }
+        }
+    }
+}
+
+/// The serde decode routes for the same octets: the JSON string `Serialize`
+/// would write, through serde_json (str, slice, Value) and serde's own string
+/// deserializers. Whatever they accept is a decoded manifest like any other;
+/// `Deserialize` is documented as a strict decode, so the verdict is the
+/// strict decode's.
+#[allow(clippy::too_many_arguments)]
+fn serde_route(t: &mut Tally, fx: &Fixed, cms: &Cms, c: &Case, econtent: &[u8], obj: &Bytes, enc: &str, strict_accepted: bool, alt: &dyn Fn(usize) -> Vec<u8>) {
+    if cms.b64 > 3 { return }
+    t.evals += 1;
+    let json = cms.serde_form(obj);
+    let wit = || witness(&format!("serde_json::from_str::<Manifest>(base64 of the object){}{enc}", if enc.is_empty() { "" } else { " " }), c, econtent);
+    let first = guard(|| serde_json::from_str::<Manifest>(&json).map_err(|e| e.to_string()));
+    let accepted = match &first {
+        Err(p) => { t.outcome("panic"); t.fail("C14.decode.no_panic", wit, format!("Deserialize for Manifest panicked: {p}")); return }
+        Ok(Err(_)) => false,
+        Ok(Ok(m)) => {
+            examine(t, fx, c, m.content(), true, &wit);
+            manifest_views(t, cms, c, m, obj, true, alt, &wit);
+            if !matches!(guard(|| serde_json::to_string(m)), Ok(Ok(back)) if back == json) { t.stat("serde_accepted_but_serialises_differently") }
+            true
+        }
+    };
+    t.outcome(match (accepted, strict_accepted) {
+        (true, true) => "serde accepted (as the strict decode)", (false, false) => "serde rejected (as the strict decode)",
+        (true, false) => "serde accepted (strict decode rejected)", (false, true) => "serde rejected (strict decode accepted)",
+    });
+    if accepted != strict_accepted {
+        t.fail("C14.route.serde_verdict", wit, format!("Deserialize {} what Manifest::decode(.., strict = true) {}",
+            if accepted { "accepts" } else { "rejects" }, if strict_accepted { "accepts" } else { "rejects" }));
+    }
+    // the other serde routes (for primitive eContent and for everything the first one accepted)
+    if enc.is_empty() || accepted {
+        let b64 = &json[1..json.len() - 1];
+        let others: [(&str, Result<Result<Manifest, String>, String>); 4] = [
+            ("serde_json::from_slice", guard(|| serde_json::from_slice::<Manifest>(json.as_bytes()).map_err(|e| e.to_string()))),
+            ("serde_json::from_value", guard(|| serde_json::from_value::<Manifest>(serde_json::Value::String(b64.to_string())).map_err(|e| e.to_string()))),
+            ("Manifest::deserialize(&str deserializer)", guard(|| { let d: serde::de::value::StrDeserializer<serde::de::value::Error> = b64.into_deserializer(); Manifest::deserialize(d).map_err(|e| e.to_string()) })),
+            ("Manifest::deserialize(String deserializer)", guard(|| { let d: serde::de::value::StringDeserializer<serde::de::value::Error> = b64.to_string().into_deserializer(); Manifest::deserialize(d).map_err(|e| e.to_string()) })),
+        ];
+        for (route, r) in others {
+            t.evals += 1;
+            let same = match (&r, &first) {
+                (Ok(Err(_)), Ok(Err(_))) => true,
+                (Ok(Ok(a)), Ok(Ok(b))) => a.len() == b.len() && guard(|| a.iter().map(|f| f.into_pair()).collect::<Vec<_>>()) == guard(|| b.iter().map(|f| f.into_pair()).collect::<Vec<_>>())
+                    && a.manifest_number() == b.manifest_number() && a.this_update() == b.this_update() && a.next_update() == b.next_update(),
+                _ => false,
+            };
+            if !same { t.fail("C14.route.serde_verdict", wit, format!("{route} gives {}, serde_json::from_str {}",
+                match &r { Ok(Ok(_)) => "a manifest".to_string(), Ok(Err(e)) => format!("error {e}"), Err(p) => p.clone() }, if accepted { "a manifest (or a different one)" } else { "an error" })) }
         }
     }
 }
@@ -1428,7 +1520,661 @@ fn header_len(ctx: &Ctx, fx: &Fixed, cms: &Cms) {
     sp.done(true, "4 versions x 8 numbers x 2 algorithms x 4 list sizes; 21 long lists");
 }
 
+//------------ observations: everything one evaluation lets a caller see, as one comparable string ----------
+
+/// How a subject reaches the library.
+#[derive(Clone, Copy, Debug, PartialEq, Eq)]
+enum Route { ContentDer, ContentBer, CmsStrict, CmsRelaxed, Serde }
+
+#[derive(Clone)]
+struct Subject { label: String, bytes: Bytes, route: Route }
+
+/// Everything observable of a decoded content.
+fn describe(mc: &ManifestContent, bases: &[(uri::Rsync, String)], data0: &[u8], reencode: bool) -> String {
+    let mut s = format!("len={} empty={} no={} this={} next={} sha256={} stale={}", mc.len(), mc.is_empty(), mc.manifest_number(),
+        mc.this_update().to_rfc3339(), mc.next_update().to_rfc3339(), mc.file_hash_alg() == DigestAlgorithm::sha256(), mc.is_stale());
+    match guard(|| mc.iter().map(|f| f.into_pair()).collect::<Vec<_>>()) {
+        Ok(v) => for (n, h) in v { s.push_str(&format!(" [{}:{}]", esc(&n), hex(&h))) },
+        Err(p) => s.push_str(&format!(" iter() panics: {p}")),
+    }
+    for (b, _) in bases {
+        match guard(|| mc.iter_uris(b).map(|(u, h)| format!("{}={}", esc(u.as_slice()), h.verify(data0).is_ok())).collect::<Vec<_>>()) {
+            Ok(v) => s.push_str(&format!(" uris({})={}", esc(b.as_slice()), v.join(","))),
+            Err(p) => s.push_str(&format!(" iter_uris({}) panics: {p}", esc(b.as_slice()))),
+        }
+    }
+    if reencode {
+        match guard(|| mc.encode_ref().to_captured(Mode::Der).into_bytes()) {
+            Ok(b) => s.push_str(&format!(" encodes-to={}", hex(&sha256(&b)[..8]))),
+            Err(p) => s.push_str(&format!(" encode_ref() panics: {p}")),
+        }
+    }
+    s
+}
+
+/// One complete evaluation of a subject, reduced to a string.
+fn observe(sub: &Subject, fx: &Fixed, cms: &Cms) -> String {
+    let data0 = &fx.data[0].0;
+    let content = |mode: Mode| match guard(|| mode.decode(sub.bytes.clone(), ManifestContent::take_from).map_err(|e| e.to_string())) {
+        Err(p) => format!("decode panics: {p}"),
+        Ok(Err(e)) => format!("rejected: {e}"),
+        Ok(Ok(mc)) => format!("accepted: {}", describe(&mc, &fx.bases, data0, mode == Mode::Der)),
+    };
+    let object = |r: Result<Result<Manifest, String>, String>, strict: bool| match r {
+        Err(p) => format!("decode panics: {p}"),
+        Ok(Err(e)) => format!("rejected: {e}"),
+        Ok(Ok(m)) => {
+            let mut s = format!("accepted: {} ski={}", describe(m.content(), &fx.bases, data0, true), m.cert().subject_key_identifier());
+            for (what, ca, at) in [("ca@2023", &cms.ca, pki::T0), ("ca@1999", &cms.ca, 915_148_800), ("other-ca@2023", &cms.ca_other, pki::T0)] {
+                s.push_str(&match guard(|| m.clone().validate_at(ca, strict, pki::time(at))) {
+                    Ok(Ok((cert, mc))) => format!(" validate_at({what})=valid[{} len={}]", cert.subject_key_identifier(), mc.len()),
+                    Ok(Err(e)) => format!(" validate_at({what})=invalid[{e}]"),
+                    Err(p) => format!(" validate_at({what}) panics: {p}"),
+                });
+            }
+            s.push_str(&match guard(|| m.clone().validate(&cms.ca, strict)) { Ok(Ok(_)) => " validate()=valid".into(), Ok(Err(e)) => format!(" validate()=invalid[{e}]"), Err(p) => format!(" validate() panics: {p}") });
+            s
+        }
+    };
+    match sub.route {
+        Route::ContentDer => content(Mode::Der),
+        Route::ContentBer => content(Mode::Ber),
+        Route::CmsStrict => object(guard(|| Manifest::decode(sub.bytes.clone(), true).map_err(|e| e.to_string())), true),
+        Route::CmsRelaxed => object(guard(|| Manifest::decode(sub.bytes.clone(), false).map_err(|e| e.to_string())), false),
+        Route::Serde => { let json = cms.serde_form(&sub.bytes); object(guard(|| serde_json::from_str::<Manifest>(&json).map_err(|e| e.to_string())), true) }
+    }
+}
+
+/// Runs `f` first thing on a new OS thread.
+fn fresh_thread<T: Send>(f: impl FnOnce() -> T + Send) -> T {
+    std::thread::scope(|sc| sc.spawn(f).join().expect("explorer thread"))
+}
+
+/// The subject set: accepted and rejected, every route, short and long.
+fn subjects(fx: &Fixed, cms: &Cms) -> Vec<Subject> {
+    let mut v = Vec::new();
+    let names = |n: usize| -> Vec<MftEntry> { (0..n).map(|i| fx.good(&format!("file{i:03}.roa"))).collect() };
+    let mut content = |label: &str, c: &Case, ber_too: bool| {
+        let ec = Bytes::from(c.econtent());
+        v.push(Subject { label: format!("take_from/der {label}"), bytes: ec.clone(), route: Route::ContentDer });
+        if ber_too { v.push(Subject { label: format!("take_from/ber {label}"), bytes: ec, route: Route::ContentBer }) }
+    };
+    content("empty list", &Case::plain(vec![]), true);
+    content("one entry", &Case::plain(vec![fx.good("a-b_C1.roa")]), true);
+    content("three entries", &Case::plain(vec![fx.good("a-b_C1.roa"), fx.good("X0.cer"), fx.good("third_3.crl")]), false);
+    content("40 entries", &Case::plain(names(40)), false);
+    content("a 300-octet name", &Case::plain(vec![fx.good(&format!("{}.roa", "n".repeat(296)))]), false);
+    content("bad name .roa", &Case::plain(vec![fx.good("a-b_C1.roa"), fx.good(".roa")]), true);
+    content("bad name a/b.roa last of three", &Case::plain(vec![fx.good("a-b_C1.roa"), fx.good("X0.cer"), fx.good("a/b.roa")]), false);
+    content("bad name ../x.roa first", &Case::plain(vec![fx.good("../x.roa"), fx.good("X0.cer")]), false);
+    { let mut c = Case::plain(names(2)); c.this = NEXT; c.next = THIS; content("inverted times", &c, false); }
+    { let mut c = Case::plain(names(2)); c.next = THIS; content("equal times", &c, false); }
+    { let mut c = Case::plain(names(1)); c.this = TimeEnc { civ: civ(2049, 12, 31, 23, 59, 59), utc: true }; c.next = TimeEnc { civ: civ(2050, 1, 1, 0, 0, 0), utc: false }; content("UTCTime/GeneralizedTime pivot", &c, false); }
+    { let mut c = Case::plain(names(1)); c.version = Some(1); content("version 1", &c, false); }
+    { let mut c = Case::plain(names(1)); c.number = vec![0x7f; 20]; content("20-octet number", &c, false); }
+    content("hash of 33 octets, 8 unused bits", &Case::plain(vec![MftEntry { name: b"obj.roa".to_vec(), hash_unused: 8, hash: vec![0; 33] }]), false);
+    content("hash of 31 octets", &Case::plain(vec![MftEntry { name: b"obj.roa".to_vec(), hash_unused: 0, hash: fx.h0[..31].to_vec() }]), false);
+    content("hash with 1 unused bit, non-zero (BER only)", &Case::plain(vec![MftEntry { name: b"obj.roa".to_vec(), hash_unused: 1, hash: vec![0xff; 32] }]), true);
+    // a BER respelling and a truncation
+    {
+        let c = Case::plain(names(2));
+        let ec = c.econtent();
+        let root = der::parse_one(&ec, false).expect("own eContent parses");
+        let fl = root.children.len() - 1;
+        let re = respell(&ec, &root, &mut Vec::new(), &[(vec![fl, 0], Sp::Indef), (vec![fl, 1, 0], Sp::Seg2)]);
+        v.push(Subject { label: "take_from/ber entry[0] indefinite, name[1] constructed".into(), bytes: re.into(), route: Route::ContentBer });
+        v.push(Subject { label: "take_from/der truncated in the second entry".into(), bytes: Bytes::copy_from_slice(&ec[..ec.len() - 20]), route: Route::ContentDer });
+    }
+    // signed objects
+    let mut object = |label: &str, c: &Case, routes: &[Route], ee: usize, frag: Option<usize>| {
+        let ec = c.econtent();
+        let signed = cms.sign(&ec);
+        let tlv = match frag { None => der::octets(&ec), Some(cut) => Enc { cuts: vec![cut], indef: true, outer_indef: false, nested: false }.tlv(&ec) };
+        let obj = Bytes::from(cms.assemble(&signed, &tlv, false, ee));
+        for r in routes { v.push(Subject { label: format!("{r:?} {label}"), bytes: obj.clone(), route: *r }) }
+    };
+    object("two entries", &Case::plain(names(2)), &[Route::CmsStrict, Route::CmsRelaxed, Route::Serde], 0, None);
+    object("40 entries", &Case::plain(names(40)), &[Route::CmsStrict], 0, None);
+    object("two entries, eContent in two fragments", &Case::plain(names(2)), &[Route::CmsStrict, Route::CmsRelaxed, Route::Serde], 0, Some(70));
+    object("bad name sub/b.roa", &Case::plain(vec![fx.good("a-b_C1.roa"), fx.good("sub/b.roa")]), &[Route::CmsStrict, Route::CmsRelaxed, Route::Serde], 0, None);
+    object("bad name (empty)", &Case::plain(vec![fx.good("")]), &[Route::CmsRelaxed, Route::Serde], 0, None);
+    object("two entries, EE certificate expired", &Case::plain(names(2)), &[Route::CmsStrict, Route::Serde], 1, None);
+    object("two entries, EE certificate not yet valid", &Case::plain(names(2)), &[Route::CmsRelaxed], 2, None);
+    v
+}
+
+//------------ history.independent ------------------------------------------------------------
+
+type Op = Box<dyn Fn() + Send + Sync>;
+
+/// Operations of the same API family, chosen so that every exit path is taken.
+fn predecessors(fx: &'static Fixed, cms: &'static Cms, subs: &[Subject]) -> Vec<(String, bool, Op)> {
+    // (label, member of the reduced set used for pairs, operation)
+    let mut p: Vec<(String, bool, Op)> = Vec::new();
+    // every subject, fully observed (success and every decode error), is also a predecessor
+    for (i, s) in subs.iter().enumerate() {
+        let s = s.clone();
+        p.push((format!("observe: {}", s.label), i % 3 == 0, Box::new(move || { observe(&s, fx, cms); })));
+    }
+    // a content cut off at every offset (decode error at every stage, after 0, 1, 2 valid entries)
+    let c3 = Case::plain(vec![fx.good("a-b_C1.roa"), fx.good("X0.cer"), fx.good("third_3.crl")]);
+    let ec3 = Bytes::from(c3.econtent());
+    for k in 0..ec3.len() {
+        let b = ec3.slice(..k);
+        p.push((format!("take_from/ber on the first {k} octets of a three-entry content"), k % 16 == 0, Box::new(move || { let _ = guard(|| Mode::Ber.decode(b.clone(), ManifestContent::take_from).map(|m| m.iter().count())); })));
+    }
+    // every octet of that content replaced by 0xff, one at a time (error at that octet, or a different manifest)
+    for k in 0..ec3.len() {
+        let mut v = ec3.to_vec(); v[k] = 0xff; let b = Bytes::from(v);
+        p.push((format!("take_from/der with octet {k} of a three-entry content set to ff"), k % 16 == 0, Box::new(move || { let _ = guard(|| Mode::Der.decode(b.clone(), ManifestContent::take_from).map(|m| m.iter().count())); })));
+    }
+    // a bad name after 0, 1, 2, 39 valid entries, through content and object routes
+    for n in [0usize, 1, 2, 39] {
+        let mut e: Vec<MftEntry> = (0..n).map(|i| fx.good(&format!("ok{i:02}.cer"))).collect();
+        e.push(fx.good("../../other/b.roa"));
+        let c = Case::plain(e);
+        let ec = c.econtent();
+        let obj = Bytes::from(cms.wrap(&ec, &cms.sign(&ec)));
+        let json = cms.serde_form(&obj);
+        let ecb = Bytes::from(ec);
+        p.push((format!("take_from: bad name after {n} valid entries"), true, Box::new(move || { let _ = guard(|| Mode::Der.decode(ecb.clone(), ManifestContent::take_from).is_ok()); })));
+        let o = obj.clone();
+        p.push((format!("Manifest::decode: bad name after {n} valid entries"), n == 2, Box::new(move || { for strict in [true, false] { let _ = guard(|| Manifest::decode(o.clone(), strict).is_ok()); } })));
+        p.push((format!("Deserialize: bad name after {n} valid entries"), true, Box::new(move || { let _ = guard(|| serde_json::from_str::<Manifest>(&json).map(|m| m.iter().count()).is_ok()); })));
+    }
+    // signed objects that fail at each stage of decode -> validate
+    let good = Case::plain(vec![fx.good("a-b_C1.roa"), fx.good("X0.cer")]);
+    let gec = good.econtent();
+    let signed = cms.sign(&gec);
+    let whole = cms.assemble(&signed, &der::octets(&gec), false, 0);
+    let validate_all = move |obj: Bytes| { for strict in [true, false] { let _ = guard(|| Manifest::decode(obj.clone(), strict).map(|m| {
+        let _ = guard(|| m.clone().validate_at(&cms.ca, strict, pki::time(pki::T0)).is_ok());
+        let _ = guard(|| m.clone().validate(&cms.ca, strict).is_ok());
+        m.iter().count()
+    })); } };
+    {
+        let wrong_digest = Bytes::from(cms.assemble(&cms.sign_wrong_digest(&gec), &der::octets(&gec), false, 0));
+        p.push(("validate: message digest is not the digest of the eContent".into(), true, Box::new(move || validate_all(wrong_digest.clone()))));
+        let mut bad_sig = Signed { attrs: signed.attrs.clone(), signature: signed.signature.clone() }; bad_sig.signature[100] ^= 1;
+        let bad_sig = Bytes::from(cms.assemble(&bad_sig, &der::octets(&gec), false, 0));
+        p.push(("validate: signature with one bit changed".into(), true, Box::new(move || validate_all(bad_sig.clone()))));
+        // same signature, other content (same identity, different content)
+        let other = Case::plain(vec![fx.good("a-b_C1.roa"), fx.good("Y1.cer")]).econtent();
+        let swapped = Bytes::from(cms.assemble(&signed, &der::octets(&other), false, 0));
+        p.push(("validate: signed attributes of another manifest with the same number and key".into(), true, Box::new(move || validate_all(swapped.clone()))));
+        let w = Bytes::from(whole.clone());
+        p.push(("validate: under a CA that did not issue the EE certificate, and 200 years late".into(), true, Box::new(move || { for strict in [true, false] { let _ = guard(|| Manifest::decode(w.clone(), strict).map(|m| {
+            let _ = guard(|| m.clone().validate_at(&cms.ca_other, strict, pki::time(pki::T0)).is_ok());
+            let _ = guard(|| m.clone().validate_at(&cms.ca, strict, Time::utc(2223, 1, 1, 0, 0, 0)).is_ok());
+        })); } })));
+        for ee in [1usize, 2] {
+            let o = Bytes::from(cms.assemble(&signed, &der::octets(&gec), false, ee));
+            p.push((format!("validate: EE certificate window {}", if ee == 1 { "2000..2001" } else { "2100..2101" }), ee == 1, Box::new(move || validate_all(o.clone()))));
+        }
+        // the object cut off at 24 evenly spread offsets, and with the wrong content type
+        for i in 0..24 { let k = whole.len() * i / 24; let o = Bytes::copy_from_slice(&whole[..k]);
+            p.push((format!("Manifest::decode on the first {k} octets of a signed manifest"), i % 6 == 0, Box::new(move || validate_all(o.clone())))); }
+        let roa_typed = { let mut w2 = whole.clone(); // content type manifest (…01 1a) -> ROA (…01 18), both places
+            let pat = [0x2au8, 0x86, 0x48, 0x86, 0xf7, 0x0d, 0x01, 0x09, 0x10, 0x01, 0x1a];
+            let mut i = 0; while i + pat.len() <= w2.len() { if w2[i..i + pat.len()] == pat { w2[i + pat.len() - 1] = 0x18 } i += 1 }
+            Bytes::from(w2) };
+        p.push(("Manifest::decode: object with the ROA content type".into(), true, Box::new(move || validate_all(roa_typed.clone()))));
+        // re-encoding a relaxed decode panics (C04's finding): a genuine unwinding exit from the family
+        let w = Bytes::from(whole.clone());
+        p.push(("to_captured() on a relaxed decode (unwinds)".into(), true, Box::new(move || { let _ = guard(|| Manifest::decode(w.clone(), false).map(|m| m.to_captured().len())); })));
+    }
+    // serde failures before the decoder is reached
+    for (label, text) in [("not JSON", "{"), ("a JSON number", "17"), ("not base64", "\"@@@@\""), ("base64 of garbage", "\"AAECAwQFBgc=\""), ("empty string", "\"\"")] {
+        let text = text.to_string();
+        p.push((format!("Deserialize: {label}"), true, Box::new(move || { let _ = guard(|| serde_json::from_str::<Manifest>(&text).is_ok()); })));
+    }
+    // iterators left half-way; an iterator-consuming constructor whose iterator panics after k items
+    let ec40 = Bytes::from(Case::plain((0..40).map(|i| fx.good(&format!("file{i:03}.roa"))).collect()).econtent());
+    for k in [0usize, 1, 20, 39] {
+        let b = ec40.clone();
+        p.push((format!("iter() and iter_uris() dropped after {k} of 40 entries"), k == 1, Box::new(move || { let _ = guard(|| { let m = Mode::Der.decode(b.clone(), ManifestContent::take_from).unwrap();
+            let mut it = m.iter(); for _ in 0..k { it.next(); } let mut iu = m.iter_uris(&fx.bases[1].0); for _ in 0..k { iu.next(); } }); })));
+        let b = ec40.clone();
+        p.push((format!("ManifestContent::new with an iterator that panics after {k} items"), true, Box::new(move || { let _ = guard(|| { let m = Mode::Der.decode(b.clone(), ManifestContent::take_from).unwrap();
+            let items: Vec<_> = m.iter().collect();
+            ManifestContent::new(m.manifest_number(), m.this_update(), m.next_update(), m.file_hash_alg(),
+                items.iter().enumerate().map(|(i, f)| { if i == k { panic!("iterator gives up") } f })).len() }); })));
+    }
+    // hash checks and URI operations that fail
+    p.push(("ManifestHash::verify mismatches, hashes of 0/31/32/33 octets".into(), true, Box::new(move || { for n in [0usize, 31, 32, 33] {
+        let h = ManifestHash::new(Bytes::from(vec![0x5a; n]), DigestAlgorithm::sha256()); let _ = guard(|| h.verify(b"x").is_ok()); } })));
+    for (label, text) in [("bad scheme", "http://host/module/"), ("no module", "rsync://host/"), ("dot segment", "rsync://host/module/a/../b"), ("empty segment", "rsync://host/module//a"), ("bad character", "rsync://host/module/a b"), ("not UTF-8", "rsync://host/module/\u{fffd}")] {
+        let text = text.to_string();
+        p.push((format!("uri::Rsync::from_str fails: {label}"), true, Box::new(move || { let _ = guard(|| uri::Rsync::from_str(&text).is_ok()); })));
+    }
+    for (label, path) in [("slash first", &b"/x.roa"[..]), ("dot dot", b"../x.roa"), ("space", b"x y.roa"), ("empty segment", b"a//b.roa"), ("a 70 000-octet name", &[b'n'; 70_000])] {
+        let path = path.to_vec();
+        p.push((format!("Rsync::join fails or is long: {label}"), true, Box::new(move || { for (b, _) in &fx.bases { let _ = guard(|| b.join(&path).map(|u| u.parent().is_some()).is_ok()); } })));
+    }
+    p
+}
+
+fn history_independent(ctx: &Ctx, fx: &'static Fixed, cms: &'static Cms) {
+    let sp = ctx.space("history.independent",
+        "sequences, each on its own fresh OS thread: one predecessor operation (thorough: every ordered pair from a reduced menu), then every subject in order and again in reverse order; each subject's complete observation (verdict with error text, len, number, times, every entry, iter_uris on 3 bases with verify, re-encoding, validate_at under the right CA / too early / another CA, validate()) must equal the observation of the same subject evaluated first thing on a fresh thread. Subjects: accepted and rejected contents (DER and BER mode), signed objects (strict, relaxed, serde), short and long. Predecessors take every exit path of the family: every subject; a content cut off at every offset; every octet set to ff; a bad name after 0/1/2/39 valid entries through take_from, Manifest::decode and Deserialize; digest mismatch, bad signature, foreign signed attributes, wrong CA, expired / future EE; truncated objects; wrong content type; to_captured() on a relaxed decode (unwinds); serde input that fails before decoding; iterators dropped half-way; ManifestContent::new with an iterator that panics after k items; hash mismatches; URI parse and join errors; non-trivial = sequences whose predecessor fails or unwinds");
+    let subs = subjects(fx, cms);
+    // reference: each subject first thing on its own thread (twice: the reference itself must be reproducible)
+    let reference: Vec<String> = subs.iter().map(|s| fresh_thread(|| observe(s, fx, cms))).collect();
+    for (s, r) in subs.iter().zip(&reference) {
+        sp.eval();
+        let again = fresh_thread(|| observe(s, fx, cms));
+        if again != *r { ctx.fail("C14.history.independent", format!("twice on fresh threads: {}", s.label), format!("first {} / second {}", trunc(r, 300), trunc(&again, 300))) }
+        sp.outcome(if r.starts_with("accepted") { "subject accepted" } else { "subject rejected" });
+    }
+    sp.sample_str(|| format!("{} => {}", subs[1].label, trunc(&reference[1], 400)));
+    let preds = predecessors(fx, cms, &subs);
+    let mut sequences: Vec<Vec<usize>> = (0..preds.len()).map(|i| vec![i]).collect();
+    if ctx.tier.is_thorough() {
+        let reduced: Vec<usize> = (0..preds.len()).filter(|i| preds[*i].1).collect();
+        for &a in &reduced { for &b in &reduced { sequences.push(vec![a, b]) } }
+    }
+    // 16 threads at a time, results gathered in sequence order
+    let mut failures: Vec<(String, String)> = Vec::new();
+    for batch in sequences.chunks(16) {
+        let results: Vec<Vec<(String, String)>> = std::thread::scope(|sc| {
+            let handles: Vec<_> = batch.iter().map(|seq| {
+                let (preds, subs, reference) = (&preds, &subs, &reference);
+                sc.spawn(move || {
+                    for &i in seq { (preds[i].2)() }
+                    let mut bad = Vec::new();
+                    let order: Vec<usize> = (0..subs.len()).chain((0..subs.len()).rev()).collect();
+                    for (pos, &si) in order.iter().enumerate() {
+                        let got = observe(&subs[si], fx, cms);
+                        if got != reference[si] {
+                            bad.push((format!("after [{}], subject #{pos} of the pass: {}", seq.iter().map(|i| preds[*i].0.as_str()).collect::<Vec<_>>().join(" ; "), subs[si].label),
+                                      format!("on a fresh thread: {} / here: {}", trunc(&reference[si], 300), trunc(&got, 300))));
+                        }
+                    }
+                    bad
+                })
+            }).collect();
+            handles.into_iter().map(|h| h.join().expect("sequence thread")).collect()
+        });
+        for r in results { failures.extend(r) }
+    }
+    sp.evals((sequences.len() * subs.len() * 2) as u64);
+    sp.traces(sequences.len() as u64);
+    sp.nontrivial(sequences.len() as u64);
+    sp.outcomes_n("sequences run", sequences.len() as u64);
+    for (w, d) in failures { ctx.fail("C14.history.independent", w, d) }
+    sp.set("subjects", serde_json::json!(subs.iter().map(|s| s.label.clone()).collect::<Vec<_>>()));
+    sp.set("predecessors", serde_json::json!(preds.len()));
+    sp.done(true, &format!("{} predecessors{} x {} subjects forwards and backwards", preds.len(), if ctx.tier.is_thorough() { " and all ordered pairs of the reduced menu" } else { "" }, subs.len()));
+}
+
+//------------ ownership -------------------------------------------------------------------------
+
+/// The same octets held in different ways.
+fn storage_forms(b: &Bytes) -> Vec<(&'static str, Bytes)> {
+    let mut big = vec![0xEEu8; 37]; big.extend_from_slice(b); big.extend_from_slice(&[0x30, 0x03, 0x02, 0x01, 0x00, 0xEE, 0xEE]);
+    let big = Bytes::from(big);
+    let leaked: &'static [u8] = Box::leak(b.to_vec().into_boxed_slice());
+    vec![("sole owner", Bytes::from(b.to_vec())), ("view into a larger buffer", big.slice(37..37 + b.len())), ("static", Bytes::from_static(leaked)),
+         ("shared with a live clone", b.clone())]
+}
+
+fn ownership(ctx: &Ctx, fx: &'static Fixed, cms: &'static Cms) {
+    let sp = ctx.space("ownership",
+        "every subject of history.independent with its octets held as sole owner / a view into a larger Bytes / static / shared with a live clone, and (content routes) read from a plain slice; for accepted contents and objects: observed directly, with a live clone, after the clone was dropped, the clone observed after the original was dropped, iterators taken from original and clone alternately; base URIs likewise (sole, view into a larger buffer, static, clone, clone after path_into_dir()/unshare() on the other copy): every observation equals the twin decoded from a sole owner with freshly parsed bases; non-trivial = combinations other than sole owner without clone");
+    let subs = subjects(fx, cms);
+    let mut t = Tally::default();
+    // base URIs held in different ways, as alternative Fixed values
+    let base_forms: Vec<(&'static str, Fixed)> = {
+        let mk = |how: &'static str, f: &dyn Fn(&uri::Rsync) -> uri::Rsync| { let mut x = Fixed::new(); x.bases = fx.bases.iter().map(|(b, d)| (f(b), d.clone())).collect(); (how, x) };
+        vec![
+            mk("bases: views into a larger buffer", &|b| { let mut big = b"junk before ".to_vec(); big.extend_from_slice(b.as_slice()); big.extend_from_slice(b"/junk/after"); let big = Bytes::from(big);
+                uri::Rsync::from_bytes(big.slice(12..12 + b.as_slice().len())).expect("base") }),
+            mk("bases: static", &|b| uri::Rsync::from_bytes(Bytes::from_static(Box::leak(b.as_slice().to_vec().into_boxed_slice()))).expect("base")),
+            mk("bases: clones whose other copy was made a directory and unshared", &|b| { let c = b.clone(); let mut o = b.clone(); o.path_into_dir(); o.unshare(); drop(o); c }),
+            mk("bases: unshared", &|b| { let mut c = b.clone(); c.unshare(); c }),
+        ]
+    };
+    for s in &subs {
+        let twin = observe(s, fx, cms);
+        t.outcome(if twin.starts_with("accepted") { "accepted" } else { "rejected" });
+        let check = |how: String, got: String, t: &mut Tally| {
+            t.evals += 1; t.nontrivial += 1;
+            if got != twin { t.fail("C14.ownership", || format!("{how}: {}", s.label), format!("sole owner: {} / {how}: {}", trunc(&twin, 300), trunc(&got, 300))) }
+        };
+        for (how, bytes) in storage_forms(&s.bytes) {
+            let keep = s.bytes.clone(); // the live clone of the last form
+            check(how.to_string(), observe(&Subject { label: s.label.clone(), bytes, route: s.route }, fx, cms), &mut t);
+            drop(keep);
+        }
+        for (how, fxb) in &base_forms { check(how.to_string(), observe(s, fxb, cms), &mut t) }
+        let data0 = &fx.data[0].0;
+        // clones of the decoded values
+        match s.route {
+            Route::ContentDer | Route::ContentBer => {
+                let mode = if s.route == Route::ContentDer { Mode::Der } else { Mode::Ber };
+                let der = mode == Mode::Der;
+                // read from a plain slice (SliceSource) instead of Bytes
+                let from_slice = match guard(|| mode.decode(s.bytes.as_ref(), ManifestContent::take_from).map_err(|e| e.to_string())) {
+                    Err(p) => format!("decode panics: {p}"), Ok(Err(e)) => format!("rejected: {e}"), Ok(Ok(mc)) => format!("accepted: {}", describe(&mc, &fx.bases, data0, der)) };
+                check("read from a plain slice".into(), from_slice, &mut t);
+                if let Ok(Ok(mc)) = guard(|| mode.decode(s.bytes.clone(), ManifestContent::take_from)) {
+                    let d = |m: &ManifestContent| format!("accepted: {}", describe(m, &fx.bases, data0, der));
+                    let clone = mc.clone();
+                    check("original while a clone lives".into(), d(&mc), &mut t);
+                    check("the live clone".into(), d(&clone), &mut t);
+                    // iterators from both, alternately
+                    let alt = guard(|| { let (mut a, mut b) = (mc.iter(), clone.iter()); let mut out = Vec::new();
+                        loop { match (a.next(), b.next()) { (None, None) => break, (x, y) => out.push((x.map(|f| f.into_pair()), y.map(|f| f.into_pair()))) } } out });
+                    let want: Vec<_> = guard(|| mc.iter().map(|f| f.into_pair()).collect::<Vec<_>>()).unwrap_or_default();
+                    t.evals += 1;
+                    if !matches!(&alt, Ok(v) if v.len() == want.len() && v.iter().zip(&want).all(|((x, y), w)| x.as_ref() == Some(w) && y.as_ref() == Some(w))) {
+                        t.fail("C14.ownership", || format!("iterators of original and clone alternately: {}", s.label), "the two iterators do not both yield the list".into());
+                    }
+                    drop(clone);
+                    check("original after its clone was dropped".into(), d(&mc), &mut t);
+                    let clone = mc.clone();
+                    drop(mc);
+                    check("clone after the original was dropped".into(), d(&clone), &mut t);
+                }
+            }
+            _ => {
+                let strict = s.route != Route::CmsRelaxed;
+                let dec = || if s.route == Route::Serde { serde_json::from_str::<Manifest>(&cms.serde_form(&s.bytes)).ok() } else { Manifest::decode(s.bytes.clone(), strict).ok() };
+                if let Ok(Some(m)) = guard(dec) {
+                    let d = |m: &Manifest| format!("accepted: {}", describe(m.content(), &fx.bases, data0, true));
+                    let want = d(&m);
+                    let clone = m.clone();
+                    let _ = guard(|| clone.clone().validate_at(&cms.ca, strict, pki::time(pki::T0)).is_ok()); // consumes a copy
+                    t.evals += 3; t.nontrivial += 3;
+                    let content_clone = m.content().clone();
+                    drop(m);
+                    let after = d(&clone);
+                    let lone = format!("accepted: {}", describe(&content_clone, &fx.bases, data0, true));
+                    drop(clone);
+                    let lone2 = format!("accepted: {}", describe(&content_clone, &fx.bases, data0, true));
+                    if after != want || lone != want || lone2 != want || !twin.starts_with(&want) {
+                        t.fail("C14.ownership", || format!("clones of a decoded Manifest and of its content: {}", s.label), format!("original {} / clone after drop {} / content clone {}", trunc(&want, 200), trunc(&after, 200), trunc(&lone, 200)));
+                    }
+                }
+            }
+        }
+    }
+    t.flush(ctx, &sp);
+    sp.done(true, &format!("{} subjects x 4 storage forms x 4 base forms x clone situations", subs.len()));
+}
+
+//------------ handed-out iterators -----------------------------------------------------------------
+
+#[derive(Clone, Copy, Debug, PartialEq, Eq)]
+enum ItOp { Next, Nth0, Nth1, Nth2, SizeHint, CloneNext, SkipTake, Count, Last, Drop }
+
+fn handed_out(ctx: &Ctx, fx: &'static Fixed) {
+    let sp = ctx.space("handed_out.iterators",
+        "every sequence of 1..=3 calls from {next, nth(0), nth(1), nth(2), size_hint, clone-then-next-on-the-clone (iter() only), by_ref().skip(1).take(1), count, last, drop} on iter(), on iter() after the ManifestContent was dropped, and on iter_uris(base) of lists of 0..=5 entries, against a Vec of the entries; and every sequence of 1..=3 steps {A.next, B.next, A.nth(1), B.nth(1), drop A, drop B} on two live iterators of the same content (iter/iter, iter/iter_uris, iter_uris/iter_uris with different bases); non-trivial = sequences of more than one call");
+    let ops = [ItOp::Next, ItOp::Nth0, ItOp::Nth1, ItOp::Nth2, ItOp::SizeHint, ItOp::CloneNext, ItOp::SkipTake, ItOp::Count, ItOp::Last, ItOp::Drop];
+    let mut seqs: Vec<Vec<ItOp>> = Vec::new();
+    for a in ops { seqs.push(vec![a]); for b in ops { seqs.push(vec![a, b]); for c in ops { seqs.push(vec![a, b, c]) } } }
+    let mut t = Tally::default();
+    // the reference: the same calls on a Vec's iterator; items rendered as strings
+    fn run_seq<I: Iterator<Item = String>>(mut it: Option<I>, seq: &[ItOp], clone: &dyn Fn(&I) -> Option<I>, remaining_after: &dyn Fn(&I) -> usize, check_hint: bool) -> Vec<String> {
+        let mut out = Vec::new();
+        for op in seq {
+            let Some(i) = it.as_mut() else { out.push("(gone)".into()); continue };
+            match op {
+                ItOp::Next => out.push(format!("{:?}", i.next())),
+                ItOp::Nth0 => out.push(format!("{:?}", i.nth(0))),
+                ItOp::Nth1 => out.push(format!("{:?}", i.nth(1))),
+                ItOp::Nth2 => out.push(format!("{:?}", i.nth(2))),
+                ItOp::SizeHint => { let (lo, hi) = i.size_hint(); let rem = remaining_after(i);
+                    out.push(if !check_hint || (lo <= rem && hi.is_none_or(|h| h >= rem)) { "hint ok".into() } else { format!("size_hint ({lo}, {hi:?}) but {rem} left") }) }
+                ItOp::CloneNext => out.push(match clone(i) { Some(mut c) => format!("{:?}", c.next()), None => "(no clone)".into() }),
+                ItOp::SkipTake => out.push(format!("{:?}", i.by_ref().skip(1).take(1).collect::<Vec<_>>())),
+                ItOp::Count => { out.push(format!("{}", it.take().unwrap().count())) }
+                ItOp::Last => { out.push(format!("{:?}", it.take().unwrap().last())) }
+                ItOp::Drop => { it = None; out.push("dropped".into()) }
+            }
+        }
+        out
+    }
+    let bases = [&fx.bases[0].0, &fx.bases[2].0];
+    for n in 0..=5usize {
+        let c = Case::plain((0..n).map(|i| { let mut e = fx.good(&format!("e{i}.roa")); e.hash[0] = i as u8; e }).collect());
+        let ec = Bytes::from(c.econtent());
+        let Ok(Ok(mc)) = guard(|| Mode::Der.decode(ec.clone(), ManifestContent::take_from)) else { t.stat("valid_list_not_decoded"); continue };
+        let fh = |f: FileAndHash<Bytes, Bytes>| format!("{}:{}", esc(f.file()), hex(f.hash()));
+        let names: Vec<String> = c.entries.iter().map(|e| format!("{}:{}", esc(&e.name), hex(&e.hash))).collect();
+        let uris = |b: &uri::Rsync, dir: &str| -> Vec<String> { let _ = b; c.entries.iter().map(|e| format!("{dir}{}:{}", esc(&e.name), hex(&e.hash))).collect() };
+        let uh = |(u, h): (uri::Rsync, ManifestHash)| format!("{}:{}", u, hex(h.as_slice()));
+        for seq in &seqs {
+            if seq.len() > 1 { t.nontrivial += 1 }
+            let wit = |what: &str| format!("{what} of a {n}-entry list: {seq:?}");
+            // the model: a Vec iterator (it is Clone and knows what is left)
+            let model = |items: &Vec<String>, can_clone: bool| run_seq(Some(items.clone().into_iter()), seq, &|i| if can_clone { Some(i.clone()) } else { None }, &|i| i.len(), false);
+            // iter()
+            t.evals += 3;
+            let got = guard(|| run_seq(Some(mc.iter().map(fh)), seq, &|_| None, &|_| 0, false));
+            // clone-then-next needs the concrete FileListIter: run it unmapped
+            let got_raw = guard(|| run_seq(Some(IterS(mc.iter())), seq, &|i| Some(IterS(i.0.clone())), &|i| i.0.clone().count(), true));
+            let want = model(&names, true);
+            if got_raw.as_ref().ok() != Some(&want) { t.fail("C14.handed_out", || wit("iter()"), format!("got {:?}, a Vec of the entries gives {:?}", got_raw, want)) }
+            let want_nc = model(&names, false);
+            if got.as_ref().ok() != Some(&want_nc) { t.fail("C14.handed_out", || wit("iter().map(..)"), format!("got {:?}, a Vec of the entries gives {:?}", got, want_nc)) }
+            // iter() outliving the content
+            let got = guard(|| { let m2 = mc.clone(); let it = IterS(m2.iter()); drop(m2); run_seq(Some(it), seq, &|i| Some(IterS(i.0.clone())), &|i| i.0.clone().count(), true) });
+            if got.as_ref().ok() != Some(&want) { t.fail("C14.handed_out", || wit("iter() after the ManifestContent was dropped"), format!("got {:?}, a Vec of the entries gives {:?}", got, want)) }
+            // iter_uris(base)
+            for (b, dir) in [(bases[0], fx.bases[0].1.as_str()), (bases[1], fx.bases[2].1.as_str())] {
+                t.evals += 1;
+                let got = guard(|| run_seq(Some(mc.iter_uris(b).map(uh)), seq, &|_| None, &|_| 0, false));
+                let want = model(&uris(b, dir), false);
+                if got.as_ref().ok() != Some(&want) { t.fail("C14.handed_out", || wit(&format!("iter_uris({b})")), format!("got {:?}, a Vec of the entries gives {:?}", got, want)) }
+            }
+        }
+        // two live iterators
+        #[derive(Clone, Copy, Debug)] enum Two { ANext, BNext, ANth1, BNth1, DropA, DropB }
+        let steps = [Two::ANext, Two::BNext, Two::ANth1, Two::BNth1, Two::DropA, Two::DropB];
+        let mut plans: Vec<Vec<Two>> = Vec::new();
+        for a in steps { plans.push(vec![a]); for b in steps { plans.push(vec![a, b]); for c in steps { plans.push(vec![a, b, c]) } } }
+        fn run_two(mut a: Option<Box<dyn Iterator<Item = String> + '_>>, mut b: Option<Box<dyn Iterator<Item = String> + '_>>, plan: &[Two]) -> Vec<String> {
+            plan.iter().map(|s| match s {
+                Two::ANext => a.as_mut().map(|i| format!("{:?}", i.next())).unwrap_or("(gone)".into()),
+                Two::BNext => b.as_mut().map(|i| format!("{:?}", i.next())).unwrap_or("(gone)".into()),
+                Two::ANth1 => a.as_mut().map(|i| format!("{:?}", i.nth(1))).unwrap_or("(gone)".into()),
+                Two::BNth1 => b.as_mut().map(|i| format!("{:?}", i.nth(1))).unwrap_or("(gone)".into()),
+                Two::DropA => { a = None; "dropped".into() }
+                Two::DropB => { b = None; "dropped".into() }
+            }).collect()
+        }
+        let (u0, u2) = (uris(bases[0], &fx.bases[0].1), uris(bases[1], &fx.bases[2].1));
+        for plan in &plans {
+            if plan.len() > 1 { t.nontrivial += 1 }
+            for kind in 0..3 {
+                t.evals += 1;
+                let got = guard(|| match kind {
+                    0 => run_two(Some(Box::new(mc.iter().map(fh))), Some(Box::new(mc.iter().map(fh))), plan),
+                    1 => run_two(Some(Box::new(mc.iter().map(fh))), Some(Box::new(mc.iter_uris(bases[0]).map(uh))), plan),
+                    _ => run_two(Some(Box::new(mc.iter_uris(bases[0]).map(uh))), Some(Box::new(mc.iter_uris(bases[1]).map(uh))), plan),
+                });
+                let want = match kind {
+                    0 => run_two(Some(Box::new(names.clone().into_iter())), Some(Box::new(names.clone().into_iter())), plan),
+                    1 => run_two(Some(Box::new(names.clone().into_iter())), Some(Box::new(u0.clone().into_iter())), plan),
+                    _ => run_two(Some(Box::new(u0.clone().into_iter())), Some(Box::new(u2.clone().into_iter())), plan),
+                };
+                if got.as_ref().ok() != Some(&want) {
+                    t.fail("C14.handed_out", || format!("two iterators ({}) of a {n}-entry list: {plan:?}", ["iter/iter", "iter/iter_uris", "iter_uris/iter_uris"][kind]), format!("got {:?}, two Vec iterators give {:?}", got, want));
+                }
+            }
+        }
+        t.outcome(if n == 0 { "empty list" } else { "non-empty list" });
+    }
+    t.flush(ctx, &sp);
+    sp.done(true, &format!("{} call sequences x 5 iterator kinds and 258 two-iterator plans x 3 pairings, lists of 0..=5 entries", seqs.len()));
+}
+
+/// `FileListIter` yielding rendered entries (keeps the concrete type so that it can be cloned).
+struct IterS(rpki::repository::manifest::FileListIter);
+impl Iterator for IterS {
+    type Item = String;
+    fn next(&mut self) -> Option<String> { self.0.next().map(|f| format!("{}:{}", esc(f.file()), hex(f.hash()))) }
+    fn nth(&mut self, n: usize) -> Option<String> { self.0.nth(n).map(|f| format!("{}:{}", esc(f.file()), hex(f.hash()))) }
+    fn size_hint(&self) -> (usize, Option<usize>) { self.0.size_hint() }
+    fn count(self) -> usize { self.0.count() }
+    fn last(self) -> Option<String> { self.0.last().map(|f| format!("{}:{}", esc(f.file()), hex(f.hash()))) }
+}
+
+//------------ bases ---------------------------------------------------------------------------------
+
+fn bases_space(ctx: &Ctx, fx: &Fixed) {
+    let sp = ctx.space("bases",
+        "the base URI as a dimension: module root (empty path, 1-character and long module names), one segment with and without trailing slash, two segments, 64 levels, segments made of every unusual but valid character class (. .. inside names, ~ % : ; = ! $ & ' ( ) * + , - _ digits), dotted and hidden segments, authorities with port / IPv6 literal / upper case / trailing dot, upper-case scheme, 255-octet segment -- each against lists of 0, 1, 2, 3 and 17 entries with short, 255- and 300-octet names (and one list with a bad name, which must not decode), DER and BER mode, with the full oracles for accepted manifests (iter_uris never panics, every URI directly inside the directory, parent, is_parent_of, relative_to/join inverse) and Display under width/alignment specs parsing back; bases the library refuses are counted; non-trivial = bases other than the three used everywhere");
+    let m = "rsync://host/module/";
+    let mut cands: Vec<String> = vec![m.into(), format!("{m}dir/sub/"), format!("{m}dir")];
+    let extra = cands.len();
+    cands.extend(["rsync://host/m/".to_string(), format!("rsync://host/{}/", "m".repeat(300)), "rsync://h/m/".into(),
+        format!("{m}a"), format!("{m}a/"), format!("{m}a/b"), format!("{m}a/b/"), format!("{m}{}", "d/".repeat(64)), format!("{m}{}x", "d/".repeat(63)),
+        format!("{m}{}/", "s".repeat(255))]);
+    for seg in ["a.b", "...", "a..b", ".hidden", "..a", "a.", "~user", "x%20y", "%2e%2e", "a:b", "a;b=c", "!$&'()*+,", "-", "_", "0", "A", "a-b_c.d~e", "roa.roa", "x.roa"] {
+        cands.push(format!("{m}{seg}/")); cands.push(format!("{m}{seg}")); cands.push(format!("{m}pre/{seg}/post/"));
+    }
+    for auth in ["host:873", "[2001:db8::1]", "[2001:db8::1]:873", "HOST.Example.", "192.0.2.1", "h-1.example"] { cands.push(format!("rsync://{auth}/module/")); cands.push(format!("rsync://{auth}/Module/Dir")); }
+    cands.push("RSYNC://host/module/x/".into()); cands.push("RsYnC://Host/module/".into());
+    let mut t = Tally::default();
+    let mut fxb = Fixed::new();
+    fxb.bases.clear();
+    for (i, c) in cands.iter().enumerate() {
+        match guard(|| uri::Rsync::from_str(c)) {
+            Ok(Ok(u)) => { t.outcome("base URI constructed"); if i >= extra { t.nontrivial += 1 } fxb.bases.push((u, if c.ends_with('/') { c.clone() } else { format!("{c}/") })) }
+            Ok(Err(_)) => { t.outcome("base URI refused by the library"); t.sample(|| format!("refused base: {c}")) }
+            Err(p) => t.fail("C14.uris.no_panic", || format!("uri::Rsync::from_str({c})"), p),
+        }
+    }
+    let lists: Vec<Vec<MftEntry>> = vec![
+        vec![], vec![fx.good("a.roa")], vec![fx.good("a-b_C1.roa"), fx.good("X0.cer")], vec![fx.good(&format!("{}.roa", "n".repeat(251))), fx.good("b.cer"), fx.good(&format!("{}.mft", "Z".repeat(296)))],
+        (0..17).map(|i| fx.good(&format!("f{i:02}.roa"))).collect(),
+        vec![fx.good("a.roa"), fx.good("sub/b.roa")],
+    ];
+    for l in lists {
+        let c = Case::plain(l);
+        let (a, b) = run_both(&mut t, &fxb, &c);
+        if a && b { t.stat("lists_accepted_in_both_modes") }
+        // Display under width / alignment specs: trimmed, it parses back to the URI
+        if let Ok(Ok(mc)) = guard(|| Mode::Der.decode(Bytes::from(c.econtent()), ManifestContent::take_from)) {
+            for (base, _) in &fxb.bases {
+                let Ok(us) = guard(|| mc.iter_uris(base).map(|(u, _)| u).chain([base.clone()]).collect::<Vec<_>>()) else { continue };
+                for u in us {
+                    t.evals += 1;
+                    let w = u.as_str().len() + 7;
+                    let forms = [format!("{u:>w$}"), format!("{u:<w$}"), format!("{u:^w$}"), format!("{u:1}"), format!("{u:>0$}", 3), format!("{u:.5}"), format!("{u:#}")];
+                    if forms.iter().any(|f| f.trim() != u.as_str() || uri::Rsync::from_str(f.trim()).ok().as_ref() != Some(&u)) {
+                        t.fail("C14.api.uri", || format!("Display of {} with width/alignment", esc(u.as_slice())), format!("{forms:?}"));
+                    }
+                }
+            }
+        }
+    }
+    t.flush(ctx, &sp);
+    sp.set("bases", serde_json::json!(fxb.bases.iter().map(|(b, _)| esc(b.as_slice())).collect::<Vec<_>>()));
+    sp.done(true, &format!("{} candidate bases ({} constructed) x 6 lists (one with a bad name) x 2 modes", cands.len(), fxb.bases.len()));
+}
+
+//------------ environment -----------------------------------------------------------------------------
+
+/// What a child process prints: one line per observation, independent of the time zone.
+fn environment_lines(fx: &Fixed, cms: &Cms) -> Vec<String> {
+    let mut out: Vec<String> = subjects(fx, cms).iter().map(|s| format!("{} => {}", s.label, observe(s, fx, cms))).collect();
+    // every pair of the time domain: verdict and what the accessors say
+    let dom = time_domain();
+    for a in &dom { for b in &dom {
+        let mut c = Case::plain(vec![fx.good("obj.roa")]); c.this = *a; c.next = *b;
+        let ec = Bytes::from(c.econtent());
+        out.push(format!("{} {} => {}", a.show(), b.show(), match guard(|| Mode::Der.decode(ec.clone(), ManifestContent::take_from)) {
+            Ok(Ok(m)) => format!("accepted {} {} stale={}", m.this_update().to_rfc3339(), m.next_update().to_rfc3339(), m.is_stale()), Ok(Err(e)) => format!("rejected {e}"), Err(p) => p }));
+    }}
+    out.iter().map(|l| l.replace('\n', " ")).collect()
+}
+
+fn environment(ctx: &Ctx, fx: &'static Fixed, cms: &'static Cms) {
+    let sp = ctx.space("environment",
+        "the subject set and every ordered pair of the time domain (verdict, this_update(), next_update(), is_stale(), validate() against validate_at) re-run in child processes of this binary with TZ = UTC0, a zone 11 h west, a zone 13 h east of UTC (POSIX forms, no tz database needed) and two named zones with daylight saving rules: every line must equal the line of this process; and the wall clock read again after a pause: a validate()/is_stale() call, 1.2 s pause, then an EE window and a manifest window that start at the then-current second -- validate() must equal validate_at(Time::now()) and accept, is_stale() must equal next_update() < Time::now(); non-trivial = lines compared under a non-UTC zone");
+    let here = fresh_thread(|| environment_lines(fx, cms));
+    let exe = std::env::current_exe();
+    let zones = ["UTC0", "AAA11", "BBB-13", "America/Los_Angeles", "Pacific/Kiritimati", "EST5EDT,M3.2.0,M11.1.0"];
+    let outputs: Vec<(String, Result<Vec<String>, String>)> = std::thread::scope(|sc| {
+        let hs: Vec<_> = zones.iter().map(|z| { let exe = &exe; sc.spawn(move || {
+            let exe = exe.as_ref().map_err(|e| e.to_string())?;
+            let o = std::process::Command::new(exe).arg("c14-child-observe").env("TZ", z).output().map_err(|e| e.to_string())?;
+            if !o.status.success() { return Err(format!("child exited with {:?}: {}", o.status.code(), trunc(&String::from_utf8_lossy(&o.stderr), 300))) }
+            Ok(String::from_utf8_lossy(&o.stdout).lines().map(|l| l.to_string()).collect::<Vec<_>>())
+        }) }).collect();
+        zones.iter().zip(hs).map(|(z, h)| (z.to_string(), h.join().expect("child thread"))).collect()
+    });
+    for (z, out) in outputs {
+        match out {
+            Err(e) => ctx.machinery_error(format!("environment: child with TZ={z} could not be run: {e}")),
+            Ok(lines) => {
+                sp.evals(lines.len() as u64);
+                if z != "UTC0" { sp.nontrivial(lines.len() as u64) }
+                if lines.len() != here.len() { ctx.fail("C14.environment.tz", format!("TZ={z}"), format!("{} lines, this process {}", lines.len(), here.len())) }
+                let mut shown = 0;
+                for (a, b) in lines.iter().zip(&here) {
+                    if a != b && shown < 3 { shown += 1; ctx.fail("C14.environment.tz", format!("TZ={z}: {}", trunc(b.split(" => ").next().unwrap_or(""), 200)), format!("this process: {} / child: {}", trunc(b, 300), trunc(a, 300))) }
+                }
+                sp.outcomes_n(if z == "UTC0" { "lines compared under UTC" } else { "lines compared under another zone" }, lines.len() as u64);
+            }
+        }
+    }
+    sp.done(true, &format!("{} lines x {} zones", here.len(), zones.len()));
+}
+
+/// The clock read again after a pause (runs beside the other spaces).
+fn clock_again(fx: &Fixed, cms: &Cms) -> Vec<(String, String)> {
+    let mut bad = Vec::new();
+    let ordinary = { let c = Case::plain(vec![fx.good("a.roa")]); let ec = c.econtent(); Bytes::from(cms.wrap(&ec, &cms.sign(&ec))) };
+    // first contact with the clock
+    if let Ok(Ok(m)) = guard(|| Manifest::decode(ordinary.clone(), true)) { let _ = guard(|| (m.is_stale(), m.clone().validate(&cms.ca, true).is_ok())); }
+    std::thread::sleep(std::time::Duration::from_millis(1200));
+    // windows that start now (whole second) and last an hour
+    let start = chrono::Utc::now().with_nanosecond(0).unwrap();
+    let end = start + chrono::TimeDelta::try_hours(1).unwrap();
+    let civ_of = |d: chrono::DateTime<chrono::Utc>| civ(d.year(), d.month(), d.day(), d.hour(), d.minute(), d.second());
+    let inherit = Res { v4: Claim::Inherit, v6: Claim::Inherit, asn: Claim::Inherit };
+    let mut spec = Spec::issued(Kind::Ee, EE_KEY, 1, cms.ca.subject_key_identifier(), inherit, Overclaim::Refuse);
+    spec.validity = Validity::new(Time::new(start), Time::new(end));
+    let ee = pki::build_cert_der(&cms.signer, &spec);
+    let mut c = Case::plain(vec![fx.good("a.roa")]);
+    c.this = TimeEnc { civ: civ_of(start), utc: false }; c.next = TimeEnc { civ: civ_of(end), utc: false };
+    let ec = c.econtent();
+    let signed = cms.sign(&ec);
+    // assemble with the fresh EE certificate
+    let tmp = Cms { signer: PoolSigner::load(), ee_der: ee, ee_alt: cms.ee_alt.clone(), ca: cms.ca.clone(), ca_other: cms.ca_other.clone(), b64: cms.b64 };
+    let obj = Bytes::from(tmp.assemble(&signed, &der::octets(&ec), false, 0));
+    for strict in [true, false] {
+        match guard(|| Manifest::decode(obj.clone(), strict)) {
+            Ok(Ok(m)) => {
+                let wall = guard(|| m.clone().validate(&cms.ca, strict).map(|_| ()).map_err(|e| e.to_string()));
+                let at = guard(|| m.clone().validate_at(&cms.ca, strict, Time::now()).map(|_| ()).map_err(|e| e.to_string()));
+                let (n1, stale, n2) = (Time::now(), guard(|| m.is_stale()), Time::now());
+                if wall != at || !matches!(wall, Ok(Ok(()))) {
+                    bad.push((format!("windows starting at {} (the current second), strict={strict}", start.to_rfc3339()), format!("validate() = {wall:?}, validate_at(Time::now()) = {at:?}")));
+                }
+                if !matches!(stale, Ok(s) if s == (m.next_update() < n1) || s == (m.next_update() < n2)) || stale != Ok(false) {
+                    bad.push((format!("nextUpdate {} an hour ahead, strict={strict}", end.to_rfc3339()), format!("is_stale() = {stale:?}")));
+                }
+            }
+            other => bad.push((format!("manifest with windows starting at {}", start.to_rfc3339()), format!("does not decode: {:?}", other.map(|r| r.map(|_| ()).map_err(|e| e.to_string()))))),
+        }
+    }
+    bad
+}
+
 fn main() {
+    // child mode of the environment space: print the observations and leave
+    if std::env::args().any(|a| a == "c14-child-observe") {
+        rpki_verif::engine::report::install_quiet_panic_hook();
+        let (fx, cms) = (Fixed::new(), Cms::new());
+        for l in environment_lines(&fx, &cms) { println!("{l}") }
+        return;
+    }
     let ctx = Ctx::new("C14", "exploration");
     ctx.assume("RFC 9286 section 4.2.2 is the specification of a file name: [A-Za-z0-9_-]+ '.' [A-Za-z]{3}");
     ctx.assume("the independent encoder (engine::der) writes the eContent and the signed object; aws-lc computes SHA-256 and the RSA signatures (trusted)");
@@ -1439,8 +2185,10 @@ fn main() {
     if hex(&sha256(b"abc")) != "ba7816bf8f01cfea414140de5dae2223b00361a396177a9cb410ff61f20015ad" {
         ctx.machinery_error("engine::signer::sha256 fails the FIPS 180 'abc' vector");
     }
-    let fx = Fixed::new();
-    let cms = Cms::new();
+    let fx: &'static Fixed = Box::leak(Box::new(Fixed::new()));
+    let cms: &'static Cms = Box::leak(Box::new(Cms::new()));
+    if cms.b64 > 3 { ctx.machinery_error("fixture: the base64 flavour of Serialize for Manifest could not be determined") }
+    let clock = std::thread::spawn(move || clock_again(fx, cms));
     {
         let c = Case::plain(vec![fx.good("a-b_C1.roa"), fx.good("X0.cer")]);
         let ec = c.econtent();
@@ -1460,16 +2208,31 @@ fn main() {
     }
 
     let timed = |name: &str, f: &dyn Fn()| { let t = std::time::Instant::now(); f(); eprintln!("  [{name}: {:.1}s]", t.elapsed().as_secs_f64()) };
-    timed("names.alphabet + cms.names", &|| names_alphabet(&ctx, &fx, &cms));
-    timed("names.octets", &|| names_octets(&ctx, &fx, &cms));
-    timed("names.length", &|| names_length(&ctx, &fx, &cms));
-    timed("econtent.fragments", &|| econtent_fragments(&ctx, &fx, &cms));
-    timed("source.pieces", &|| source_pieces(&ctx, &fx));
-    timed("content.ber_spellings", &|| ber_spellings(&ctx, &fx));
-    timed("entries.count", &|| entry_counts(&ctx, &fx, &cms));
-    timed("hash.bitstring", &|| hash_bitstring(&ctx, &fx, &cms));
-    timed("times", &|| times(&ctx, &fx, &cms));
-    timed("header.len", &|| header_len(&ctx, &fx, &cms));
+    timed("names.alphabet + cms.names", &|| names_alphabet(&ctx, fx, cms));
+    timed("names.octets", &|| names_octets(&ctx, fx, cms));
+    timed("names.length", &|| names_length(&ctx, fx, cms));
+    timed("econtent.fragments", &|| econtent_fragments(&ctx, fx, cms));
+    timed("source.pieces", &|| source_pieces(&ctx, fx));
+    timed("content.ber_spellings", &|| ber_spellings(&ctx, fx));
+    timed("entries.count", &|| entry_counts(&ctx, fx, cms));
+    timed("hash.bitstring", &|| hash_bitstring(&ctx, fx, cms));
+    timed("times", &|| times(&ctx, fx, cms));
+    timed("header.len", &|| header_len(&ctx, fx, cms));
+    timed("bases", &|| bases_space(&ctx, fx));
+    timed("history.independent", &|| history_independent(&ctx, fx, cms));
+    timed("ownership", &|| ownership(&ctx, fx, cms));
+    timed("handed_out.iterators", &|| handed_out(&ctx, fx));
+    timed("environment", &|| environment(&ctx, fx, cms));
+    {
+        let spc = ctx.space("environment.clock", "a validate()/is_stale() call, a 1.2 s pause, then an EE certificate window and a manifest window starting at the then-current whole second: validate() equals validate_at(Time::now()) and accepts, is_stale() equals next_update() < Time::now() and is false; strict and relaxed");
+        spc.evals(4); spc.nontrivial(2);
+        spc.outcome("validate() after the pause"); spc.outcome("is_stale() after the pause");
+        match clock.join() {
+            Ok(bad) => for (w, d) in bad { ctx.fail("C14.environment.clock", w, d) },
+            Err(_) => ctx.fail("C14.environment.clock", "clock thread", "panicked"),
+        }
+        spc.done(true, "one pause, two decode modes");
+    }
 
     ctx.finish();
 }
